@@ -24,6 +24,7 @@ def known_finding(known, prop, msg):
 def run_arena(ctx, traces, ops, profile, fields=ALL_FIELDS, oracle_props=None, seed_offset=0, label=None):
     """returns True if the engine ran"""
     oracle_props = oracle_props or [ctx.prop]
+    traces = min(traces * ctx.scale(), max(traces, 5000))      # change-directed deepening (quick tier, changed sources)
     ok, log = cargo_build(ctx, ["arena"])
     if not any(o["name"] == "build:harness-arena" for o in ctx.obligations):
         ctx.add_ob("build:harness-arena", "build", ok, "" if ok else log[-3000:])
